@@ -225,6 +225,12 @@ func cmdCheck(args []string) int {
 		}
 	}
 	cfg.Deadline = time.Now().Add(d)
+	// watchdog: the deadline is looked at between paths; a single path that does not come back (e.g. the
+	// interpreter unwinding an extremely deep recursion) must not hang the check: not decided = exit 3
+	time.AfterFunc(d+12*time.Minute, func() {
+		fmt.Printf("INCOMPLETE property=%s exploration did not return %s after its deadline: a path does not end within reach of the engine\n", prop, 12*time.Minute)
+		os.Exit(3)
+	})
 	ex := interp.NewExplorer(p, cfg)
 	var jobs []*interp.Job
 	jobCount := map[string]int{}
